@@ -252,8 +252,11 @@ def limits(ctx):
             rep = dict(entry=name, stream="tau=0", graph=dict(kind=gkind, n=N), ic=style, gamma=gamma)
             ctx.case(rep, nontrivial=True)
             ctx.count("tau0")
+            # the report window starts at 0, after 0 or before 0: the limit is I(tmin) exp(-gamma (t - tmin))
+            t0 = ([0, 0, 2, -1] if e["discrete"] else [0.0, 1.5, -2.0, 0.0])[k % 4]
+            rep["tmin"] = t0
             try:
-                res = odes.call(name, G, kw, 0.0, gamma, 0.0, 3.0, 7, False)
+                res = odes.call(name, G, kw, 0.0, gamma, t0, t0 + (3 if e["discrete"] else 3.0), 7, False)
                 t, S, I, R, d = odes.sir_curves(name, res, False)
             except Exception as ex:
                 ctx.violation("%s raised %s with tau=0" % (name, type(ex).__name__), dict(rep, error=type(ex).__name__))
@@ -277,9 +280,11 @@ def limits(ctx):
             rep = dict(entry=fam, stream="gamma=0", graph=dict(kind=gkind, n=N), rho=rho, tau=tau)
             ctx.case(rep, nontrivial=True)
             ctx.count("gamma0")
+            t0 = [0.0, 1.5, -2.0][k % 3]
+            rep["tmin"] = t0
             try:
-                a = odes.call("SIS_" + fam, G, dict(rho=rho), tau, 0.0, 0.0, tmax, 7, False)
-                b = odes.call("SIR_" + fam, G, dict(rho=rho), tau, 0.0, 0.0, tmax, 7, False)
+                a = odes.call("SIS_" + fam, G, dict(rho=rho), tau, 0.0, t0, t0 + tmax, 7, False)
+                b = odes.call("SIR_" + fam, G, dict(rho=rho), tau, 0.0, t0, t0 + tmax, 7, False)
                 Sa = odes.sir_curves("SIS_" + fam, a, False)[1]
                 Sb = odes.sir_curves("SIR_" + fam, b, False)[1]
             except Exception as ex:
